@@ -199,6 +199,20 @@ async function build (tier) {
     stats = addStats(stats, r.stats)
     for (const l of r.leaves) leaves.push({ fam: 'gen', key: 'gen:' + l.key, code: G.render(l), file: '/p/app.js', config: 'FULL' })
   }
+  // (ii-a) syntax the parser may or may not accept depending on its options (proposals, old and new extensions):
+  // alone and next to an instrumented function (accepted-but-unprintable syntax only shows when the file is printed)
+  {
+    const PROPOSALS = ["export v from 'mod';", "export v, { w } from 'mod';", "export * as ns from 'mod';", "export v, * as ns from 'mod';", "import d, * as ns2 from 'mod';", "import { 'string name' as sn } from 'mod';", "export { v as 'string name' };",
+      "import j from './j.json' with { type: 'json' };", "import j2 from './j.json' assert { type: 'json' };", "import defer * as dn from 'mod';", "import source src from 'mod';", '@dec class D1 {}', 'class D2 { @dec m() {} }', '@dec export class D3 {}', 'export @dec class D4 {}',
+      'const bound = o::m;', 'const piped = a |> f;', 'using res = g();', 'await using res2 = g();', 'const rec = #{ a: 1 };', 'const tup = #[1, 2];', 'const dx = do { 1 };', 'function fs(a) { return function.sent }', 'const v2 = a ?? b || c;', 'label: function lf() {}', 'const big = 1n ** -1n;',
+      'class P { #p; static m(o) { return #p in o } }', 'class A2 { accessor x = 1 }', 'class S { static { await; } }', 'const re = /(?<n>a)\\k<n>/v;', 'const h = <div/>;', 'let x: number = 1;', 'enum E { A }', 'function ov(a?: string) {}', 'import type { T } from "mod";', 'type T2 = string;',
+      'for await (const q of g()) {}', 'const y2 = yield;', 'new.target;', 'import.meta.url;', 'super.x;', 'return 1;', 'with (o) { p }', 'a => { "use strict"; 010 }', 'if (a) function decl() {}', '<!-- html comment', 'a\n--> html close comment', '#!second hashbang']
+    const tail = "\nfunction main(a, b) { return a + b.trim() }\n"
+    for (let i = 0; i < PROPOSALS.length; i++) for (const [wn, w] of [['alone', (x) => x + '\n'], ['before_fn', (x) => x + tail], ['after_fn', (x) => tail + x + '\n'], ['in_fn', (x) => 'function outer(a, b) { ' + x + '\n return a + b }\n'], ['in_async_fn', (x) => 'async function* outer(a, b) { ' + x + '\n return a + b }\n']]) for (const file of ['/p/app.js', '/p/app.mjs', '/p/app.ts']) {
+      stats.states++; stats.transitions++
+      leaves.push({ fam: 'proposals', key: 'prop:' + i + ':' + wn + ':' + file, code: w(PROPOSALS[i]), file, config: 'FULL' })
+    }
+  }
   // (ii-b) every literal placement of C14 (declarations, patterns, module declarations, wrappers): the literal
   // collector walks syntax the operation visitors never look at
   {
